@@ -6,6 +6,7 @@ CONSTANTS
   Weak_ErrorAbortsPublish = FALSE
   Weak_BlockOnFullBuffer = FALSE
   Weak_UnsubLeavesQuery = FALSE
+  Weak_DoubleRemoveReleasesForeignRef = FALSE
 INIT Init
 NEXT Next
 CHECK_DEADLOCK FALSE
